@@ -63,6 +63,8 @@ def _init():
 
 
 def zlabel(k, nest):
+    if nest == "community":
+        return f"Site/Z{k}"
     if nest == "subsite":
         return "North/Z1" if k == 1 else f"Z{k}"          # zone 1 lives in a site inside the site
     if nest == "dup":
@@ -74,6 +76,8 @@ def zone_tree_for(z, nest):
     """explicit zone trees of the descriptions "tree" (flat) and "subsite" (a site inside the site)"""
     zs = sorted(set(z))
     leaf = lambda k: dict(name=f"Z{k}", type="Process Zone", children=None)
+    if nest == "community":
+        return dict(name="Town", type="Community", children=[dict(name="Site", type="Site", children=[leaf(k) for k in zs])])
     if nest == "subsite":
         kids = [dict(name="North", type="Site", children=[leaf(1)])] + [leaf(k) for k in zs if k != 1]
     else:
@@ -99,7 +103,7 @@ def request(S, z, ladder, emb: Emb, with_units=False, nest=False, twin=0):
                   heat_flow=num(emb.Q(70.0), "kW"), dt_cont=num(0.0, "degC"), htc=num(1.0, "kW/m2K"), price=num(1.0, "$/MWh"),
                   active=bool(u.get("active", True))) for u in ladder]
     req = dict(streams=streams, utilities=utils, options={"DT_CONT": emb.dT(50), "DT_PHASE_CHANGE": emb.dT(10)})
-    if nest in ("tree", "subsite"):
+    if nest in ("tree", "subsite", "community"):
         req["zone_tree"] = zone_tree_for(z, nest)
     return req
 
@@ -187,9 +191,9 @@ def graphs_differ(base_sig, var_sig, g, emb_b: Emb, emb_v: Emb):
 def one_run(g, S, z, ladder, emb, extra_checks, twin=0):
     run = dict(g=g, S=S, z=z, recs=[], err="", dtDefault=60, py=[])
     try:
-        nest = g if g in ("dup", "tree", "subsite") else g == "nest"
+        nest = g if g in ("dup", "tree", "subsite", "community") else g == "nest"
         req = request(S, z, ladder, emb, with_units=(g == "perm"), nest=nest, twin=twin)
-        out, mz = _OP["service"](req, project_name="Site", is_return_full_results=True)
+        out, mz = _OP["service"](req, project_name=("Town" if g == "community" else "Site"), is_return_full_results=True)
         recs = project(out, emb, nest)
         # C14: exactly one direct-integration record per site / process zone of the prepared tree
         names = [t.name for t in out.targets]
@@ -205,7 +209,7 @@ def one_run(g, S, z, ladder, emb, extra_checks, twin=0):
             run["err"] = "non-finite number in a record"
         else:
             run["recs"] = recs
-        if g in ("base", "perm", "split", "parallel", "zoneswap", "translate", "scale"):
+        if g in ("base", "perm", "split", "parallel", "zoneswap", "translate", "scale", "tree", "community"):
             run["gsig"] = graph_signature(out, emb)
         if extra_checks:
             # C14 structural clauses that are about the Python object, not about numbers
@@ -222,7 +226,7 @@ def one_run(g, S, z, ladder, emb, extra_checks, twin=0):
                 return True
             if not finite(back) or not finite(out.model_dump()):
                 run["py"].append("C14.only_finite_numbers")
-            out2 = _OP["service"](request(S, z, ladder, emb, with_units=(g == "perm"), nest=nest, twin=twin), project_name="Site")
+            out2 = _OP["service"](request(S, z, ladder, emb, with_units=(g == "perm"), nest=nest, twin=twin), project_name=("Town" if g == "community" else "Site"))
             if out2.model_dump_json() != js:
                 run["py"].append("C14.repeat_call_identical")
             if set(out.graphs or {}) != {t.name for t in out.targets}:
